@@ -129,7 +129,8 @@ Qed.
 
 Lemma add_dep_fields name id b pa :
   p_id (add_dep name id b pa) = p_id pa /\ p_internal (add_dep name id b pa) = p_internal pa /\
-  p_flags (add_dep name id b pa) = p_flags pa /\ p_poss (add_dep name id b pa) = p_poss pa.
+  p_flags (add_dep name id b pa) = p_flags pa /\ p_poss (add_dep name id b pa) = p_poss pa /\
+  p_vals (add_dep name id b pa) = p_vals pa.
 Proof. destruct b; cbn; auto. Qed.
 
 Lemma register_add_dep name id b pa :
@@ -193,7 +194,7 @@ Qed.
 
 Definition declared (st : state) (d : decl) : state :=
   map (fun e => (fst e, add_dep (d_name d) (length st) (reaches (d_parents d) (fst e) (snd e)) (snd e))) st
-  ++ [(d_name d, mkP (length st) (d_internal d) [] [] [])].
+  ++ [(d_name d, mkP (length st) (d_internal d) [] [] [] [])].
 
 Definition declarable (st : state) (d : decl) : Prop :=
   d_name d <> [] /\ ~ In (d_name d) (keys st) /\ incl (d_parents d) (keys st).
@@ -374,7 +375,7 @@ End Snoc.
 
 Definition entry_ok (ds : list decl) (d : decl) (e : str * parser) : Prop :=
   fst e = d_name d /\ p_internal (snd e) = d_internal d /\
-  p_flags (snd e) = [] /\ p_poss (snd e) = [] /\
+  p_flags (snd e) = [] /\ p_poss (snd e) = [] /\ p_vals (snd e) = [] /\
   NoDup (dep_names (snd e)) /\ ~ In (fst e) (dep_names (snd e)) /\
   forall c, In c (dep_names (snd e)) <-> anc ds (d_name d) c.
 
@@ -439,10 +440,10 @@ Proof.
   assert (forall d', In d' ds -> incl (d_parents d') (names ds)) as Hpars by (intros d' Hd'; apply F; exact Hd').
   unfold Inv, declared. apply Forall2_app.
   - eapply Forall2_map_r; [exact I|].
-    intros d0 e Hd0 (E1 & E2 & E3 & E4 & E5 & E6 & E7).
+    intros d0 e Hd0 (E1 & E2 & E3 & E4 & E4v & E5 & E6 & E7).
     set (b := reaches (d_parents d) (fst e) (snd e)).
-    destruct (add_dep_fields (d_name d) (length st) b (snd e)) as (_ & A2 & A3 & A4).
-    unfold entry_ok. cbn [fst snd]. rewrite A2, A3, A4, dep_names_add_dep.
+    destruct (add_dep_fields (d_name d) (length st) b (snd e)) as (_ & A2 & A3 & A4 & A4v).
+    unfold entry_ok. cbn [fst snd]. rewrite A2, A3, A4, A4v, dep_names_add_dep.
     assert (~ In (d_name d) (dep_names (snd e))) as Hnd.
     { intros Hc. apply Hfresh. apply E7 in Hc. eapply anc_child_in. exact Hc. }
     assert (fst e <> d_name d) as Hq.
@@ -465,8 +466,8 @@ Proof.
         apply reaches_spec. destruct A as [Hp|(m & Hm & A)].
         -- exists (d_name d0). split; [exact Hp|left; exact E1].
         -- exists m. split; [exact Hm|right; apply E7; exact A].
-  - constructor; [|constructor]. unfold entry_ok. cbn [fst snd p_internal p_flags p_poss dep_names p_deps map].
-    split; [reflexivity|]. split; [reflexivity|]. split; [reflexivity|]. split; [reflexivity|].
+  - constructor; [|constructor]. unfold entry_ok. cbn [fst snd p_internal p_flags p_poss p_vals dep_names p_deps map].
+    split; [reflexivity|]. split; [reflexivity|]. split; [reflexivity|]. split; [reflexivity|]. split; [reflexivity|].
     split; [constructor|]. split; [intros []|]. intros c. split; [intros []|].
     intros A. exfalso. eapply (anc_snoc_new ds d Hpars Hfresh Hpar). exact A.
 Qed.
@@ -561,6 +562,6 @@ Lemma dependents_are_descendants_l ds st :
     NoDup (dep_names pa) /\ forall q, In q (dep_names pa) <-> anc ds p q.
 Proof.
   intros E. destruct (build_ret_wf ds st E) as (_ & I). split; [apply Inv_keys; exact I|].
-  intros p pa H. destruct (Forall2_in_r _ _ _ _ I H) as (d & _ & (E1 & _ & _ & _ & E5 & _ & E7)).
+  intros p pa H. destruct (Forall2_in_r _ _ _ _ I H) as (d & _ & (E1 & _ & _ & _ & _ & E5 & _ & E7)).
   cbn [fst snd] in *. subst p. auto.
 Qed.
